@@ -16,6 +16,7 @@ package httpcache
 //@   ensures result.Method == req.Method && result.URL == req.URL                             # name: same-line
 //@   ensures result.Header != nil && fresh(result.Header)                                     # name: fresh-header
 //@   ensures forall k string :: has(result.Header, k) == has(req.Header, k) && hget(result.Header, k) == hget(req.Header, k)   # name: same-fields
+//@   ensures forall k string :: joinAll(result.Header, k) == joinAll(req.Header, k)                                           # name: same-field-lines
 
 //@ func withConditionalHeaders
 //@   property C02 C16 C18
